@@ -191,6 +191,17 @@ CLAIMS = {
         quick="VERIF_NPROC=8 ./vcheck C19 --tier quick", thorough="VERIF_NPROC=8 ./vcheck C19 --tier thorough",
         technique="explicit TLA+ interleaving model checked by TLC; TLC-enumerated bounded-preemption schedules replayed deterministically on real threads and judged by TLC",
     ),
+    "C02": dict(
+        spec="FsIdent.tla / FsIdentGen.tla / FsIdentJudge.tla",
+        text="The fold rule is a TLA+ operator; TLC model-checks that references with equal folds find the object, that every "
+        "channel reports the fold of the creation spelling and that results are independent of the keyword case, and enumerates "
+        "object kind x creation spelling x reference spelling x statement kind x keyword case x reporting channel; each "
+        "case runs on the code and is judged by TLC. In addition behaviours of C03, C04, C13, C15 and C16 are executed a second "
+        "time with every SQL statement re-spelled (keywords and unquoted identifiers in another letter case) and the recorded "
+        "traces must be identical.",
+        design="6 C02",
+        technique="fold rule in TLA+, TLC enumerates spelling pairs, cases judged by TLC; metamorphic re-run of other properties' TLC-generated behaviours under re-spelling",
+    ),
 }
 
 
